@@ -120,6 +120,10 @@ pub(crate) fn dse_const(_c: &crate::common::ClosestNodes) -> f64 {
     1.0
 }
 
+/// `Core::cache_iterative_query` skipped where the obligation is not about the lookup cache or
+/// its statistics (those are C20.O1's subject)
+pub(crate) fn cache_skip(_c: &mut Core, _q: &IterativeQuery, _n: &[Node]) {}
+
 fn server_cut(_s: &mut Server, _rt: &RoutingTable, _srt: &RoutingTable, _from: SocketAddrV4, _r: RequestSpecific) -> Option<MessageType> {
     cut();
     None
@@ -225,12 +229,12 @@ fn c18_o2_learning_from_requests() {
 //@ standins: tracing lru vcoll
 //@ desc: adaptive chain, step 1: when a finished lookup's best-voted address differs from the known public address (or none is known) cleanup_done_queries returns it for a confirming self-ping, records it and sets firewalled; when it equals the known address nothing is returned and the flags are unchanged; without votes nothing happens
 //@ bounds: one finished lookup with 0 or 1 voted address (symbolic), public_address None / Some(symbolic), firewalled symbolic; unwind 26
-//@ stubs: ClosestNodes::dht_size_estimate -> constant (f64 estimator: outside); Instant::now; getrandom::fill
-//@ functions: Core::cleanup_done_queries, Core::update_address_votes_from_iterative_query, IterativeQuery::best_address, Core::cache_iterative_query (offline early return)
+//@ stubs: Core::cache_iterative_query -> skipped (lookup cache and statistics are C20.O1); Instant::now; getrandom::fill
+//@ functions: Core::cleanup_done_queries, Core::update_address_votes_from_iterative_query, IterativeQuery::best_address
 #[kani::proof]
 #[kani::stub(std::time::Instant::now, clock::now)]
 #[kani::stub(getrandom::fill, rnd::fill)]
-#[kani::stub(crate::common::closest_nodes::ClosestNodes::dht_size_estimate, dse_const)]
+#[kani::stub(crate::core::Core::cache_iterative_query, cache_skip)]
 #[kani::unwind(26)]
 fn c18_o5a_address_vote() {
     clock::set(0);
@@ -248,8 +252,12 @@ fn c18_o5a_address_vote() {
     core.public_address = before;
     core.firewalled = fw;
     let done: [(Id, Box<[Node]>); 1] = [(target, Box::new([]))];
+    clock::set(600);
+    let (ping_due, refresh_due) = (core.should_ping_table(), core.should_refresh_table());
     let out = core.cleanup_done_queries(&done, &[]);
     assert!(!core.iterative_queries.contains_key(&target), "C20.O4 finished lookup removed");
+    clock::set(901);
+    assert!(ping_due && !refresh_due && core.should_ping_table() && core.should_refresh_table(), "C14.O3 a finished lookup does not restart the maintenance timers");
     if has_vote && before != Some(voted) {
         assert!(out == Some(voted), "C18.O5a a new voted address is returned for a confirming self-ping");
         assert!(core.firewalled && core.public_address == Some(voted), "C18.O5a new address recorded, node considered firewalled until confirmed");
@@ -269,7 +277,7 @@ fn c18_o5a_address_vote() {
 //@ cap: 2400
 //@ standins: tracing lru vcoll
 //@ desc: adaptive chain, step 2: a ping request arriving from exactly the recorded public address clears firewalled (and re-keys both tables with a BEP42 id iff the current id is not valid for that IP); any other request, or a ping from any other address, leaves firewalled unchanged (NAT case: the self-ping never arrives)
-//@ bounds: public address from {10.0.0.1:6881 (private), 8.8.8.8:6881 (public)}; sender symbolic; request kind ping / find_node; unwind 26, RoutingTableIterator::next 163 (bucket indices 0..=160)
+//@ bounds: public address from {10.0.0.1:6881 (private), 8.8.8.8:6881 (public)}; sender symbolic; request kind ping / find_node; requester read-only flag symbolic (a client-mode node's own self-ping is read-only); unwind 26, RoutingTableIterator::next 163 (bucket indices 0..=160)
 //@ stubs: Server::handle_request -> flagged cut (client mode); Instant::now; getrandom::fill (BEP42 id draw)
 //@ functions: Core::handle_request, Core::does_verify_our_new_public_address_with_self_ping, RoutingTable::reset_id, Id::from_ipv4
 //@ unwindset: RoutingTableIterator = 163
@@ -291,7 +299,9 @@ fn c18_o5b_self_ping() {
     let is_ping: bool = kani::any();
     let old_id = *core.routing_table.id();
     let valid = old_id.is_valid_for_ip(*me.ip());
-    let (reply, repopulate) = core.handle_request(from, false, None, any_request(if is_ping { 0 } else { 1 }, Id::from(T5)));
+    // the self-ping of a node that is still in client mode is itself flagged read-only
+    let ro: bool = kani::any();
+    let (reply, repopulate) = core.handle_request(from, ro, None, any_request(if is_ping { 0 } else { 1 }, Id::from(T5)));
     let confirmed = is_ping && from == me;
     assert!(reply.is_none(), "C18.O1 client mode never replies");
     assert!(core.firewalled == !confirmed, "C18.O5b firewalled cleared exactly by a ping from the recorded public address");
@@ -304,7 +314,7 @@ fn c18_o5b_self_ping() {
     }
     assert!(!cut_reached(), "CUT: server reached in client mode or random bytes exhausted");
     kani::cover!(confirmed && public);
-    kani::cover!(confirmed && !public);
+    kani::cover!(confirmed && !public && ro);
     kani::cover!(is_ping && from.ip() == me.ip() && from.port() != me.port());
     std::mem::forget(reply);
     std::mem::forget(core);
